@@ -43,7 +43,8 @@ class ZernikeStandard:
             raise ValueError('Number of coefficients is limited to 120.')
 
         self.indices = self._generate_indices()
-        self.coeffs = coeffs
+        # own copy: the default list is shared between calls
+        self.coeffs = list(coeffs)
 
     def get_term(self, coeff=0, n=0, m=0, r=0, phi=0):
         """Calculate the Zernike term for given coefficients and parameters.
